@@ -262,6 +262,11 @@ def rand_mask_bl(rng, d, p_mask=0.12, p_bl=0.12, interior=True):
             mask[rng.randrange(n)] = 0
             free = [i for i in range(n) if not mask[i]]
         bl = [rng.choice(free)]
+    # base levels may also lie under the mask (e.g. default fixed-value border nodes inside a masked
+    # region): they are not part of the graph; at least one base level stays unmasked
+    masked = [i for i in range(n) if mask[i]]
+    if masked and rng.random() < 0.3:
+        bl = bl + rng.sample(masked, min(len(masked), rng.randint(1, 2)))
     rng.shuffle(bl)
     return mask, bl
 
